@@ -12,830 +12,790 @@ Definition show_fres (r : fres) : string :=
   end.
 Definition check (rs : list rune) : string := digest (show_fres (format_res rs)).
 Definition full (rs : list rune) : string := show_fres (format_res rs).
-Eval vm_compute in ("<<<M1360>>>" ++ check (runes_of_ascii "options { // c1
+Eval vm_compute in ("<<<M1339>>>" ++ check (runes_of_ascii "options { // c1a
+  // c1b
 FixedStringPadFromLeft // c2a
   // c2b
-= true // c4
-; FixedStringPadChar // c6
-= // c7
-'0' ; // c9a
-  // c9b
-} // c10
-packet
-    // c11
-Leg { repeat // c14
-InSym93 // c15
-{ zchar[
-    // c17
-3 // c18a
+= // c3a
+  // c3b
+true // c4a
+  // c4b
+; // c5
+FixedStringPadChar
+    // c6
+= // c7a
+  // c7b
+'0' ;
+    // c9
+} // c10a
+  // c10b
+packet // c11
+Leg // c12a
+  // c12b
+{ InPrice0 // c14
+{ // c15a
+  // c15b
+repeat
+    // c16
+string // c17
+clOrdID // c18a
   // c18b
-] // c19
-Acct
-    // c20
-, // c21a
-  // c21b
-string // c22a
-  // c22b
-Side2 , // c24a
-  // c24b
-i32 // c25
-Flags ,
-    // c27
-f32 // c28
-Note , i32 // c31a
-  // c31b
-msgKind
-    // c32
-, } // c34
-, // c35
-f64
-    // c36
-Note ,
-    // c38
-uint16 Px // c40a
-  // c40b
-, // c41
-} packet // c43a
-  // c43b
-Quote // c44
-{ zchar[ // c46
-2 // c47a
-  // c47b
-] OrderId // c49a
-  // c49b
 ,
-    // c50
+    // c19
+int16 // c20
+msgKind // c21a
+  // c21b
+, // c22a
+  // c22b
+zchar[ // c23
+5
+    // c24
+] Px
+    // c26
+, // c27
 }
-    // c51
-packet Ack
+    // c28
+,
+    // c29
+i16 // c30
+f1 // c31
+,
+    // c32
+repeat // c33a
+  // c33b
+f64 // c34a
+  // c34b
+Side2
+    // c35
+, string
+    // c37
+Acct // c38
+, }
+    // c40
+packet Cancel // c42
+{ zchar[ // c44
+4 ] // c46a
+  // c46b
+clOrdID // c47a
+  // c47b
+, // c48a
+  // c48b
+string // c49
+seqNo // c50
+, // c51a
+  // c51b
+Leg // c52
+,
     // c53
-{ // c54
-repeat // c55a
-  // c55b
-string // c56
-lastPx , zchar[ 4 // c60
-] price , // c63
-uint32 // c64
-OrderId , Quote // c67a
-  // c67b
-, int8
-    // c69
-Acct
-    // c70
-, } packet
-    // c73
-Fill
-    // c74
-{
+@leftPad // c54a
+  // c54b
+( '0' // c56
+)
+    // c57
+char[ 11
+    // c59
+]
+    // c60
+OrderId // c61
+,
+    // c62
+} packet
+    // c64
+Quote // c65a
+  // c65b
+{ repeat
+    // c67
+char[ 4 // c69
+] sym // c71
+, // c72
+f64 OrderId ,
     // c75
 repeat
     // c76
-Leg
-    // c77
-, // c78a
+Leg , // c78a
   // c78b
-@rightPad
-    // c79
-(
-    // c80
-'0'
-    // c81
-) // c82a
-  // c82b
-char[ 11 ] // c85
+repeat i64 // c80
+f1 // c81a
+  // c81b
+, // c82
+int16
+    // c83
 Note
-    // c86
-,
-    // c87
-f64
-    // c88
-Px // c89
-, // c90
-@rightPad
-    // c91
-( '\x00' // c93a
-  // c93b
-)
-    // c94
-char[
-    // c95
-5 // c96
-] // c97
-Flags , zchar[
+    // c84
+, zchar[ 3 // c87a
+  // c87b
+] count
+    // c89
+, } // c91
+root
+    // c92
+packet Ack { // c95a
+  // c95b
+@leftPad
+    // c96
+(
+    // c97
+' ' // c98a
+  // c98b
+) char[
     // c100
-9
+10
     // c101
 ] // c102a
   // c102b
-x // c103
+sym // c103a
+  // c103b
 , // c104
-string msgKind , // c107
-}
-    // c108
-root packet
-    // c110
-Order // c111
-{ Leg , // c114
-repeat Ack , // c117
-@rightPad (
+InPx60 // c105
+{ Cancel // c107a
+  // c107b
+, // c108
+repeat char[ 1 // c111
+] f1 // c113
+, // c114a
+  // c114b
+string // c115
+Tail ,
+    // c117
+repeat // c118a
+  // c118b
+InNote55
     // c119
-'\x00' )
-    // c121
-char[ // c122
-3 // c123a
-  // c123b
-]
-    // c124
-Side2 // c125a
+{ // c120
+int8 count
+    // c122
+,
+    // c123
+f64 // c124a
+  // c124b
+f1 // c125a
   // c125b
-, // c126a
-  // c126b
-repeat // c127a
-  // c127b
-char[
+, repeat Cancel
     // c128
-1 ] // c130
-seqNo // c131
-, u16 // c133
-clOrdID // c134a
-  // c134b
-, match
+, // c129a
+  // c129b
+}
+    // c130
+,
+    // c131
+char[]
+    // c132
+tag7
+    // c133
+, repeat // c135a
+  // c135b
+string
     // c136
-clOrdID
+msgKind
     // c137
-as // c138
-Body { // c140
-198 // c141
-:
-    // c142
-Leg
+, } , // c140
+u8
+    // c141
+lastPx ,
     // c143
-, 23 // c145a
-  // c145b
-: // c146a
+match // c144
+lastPx
+    // c145
+as // c146a
   // c146b
-Quote // c147a
-  // c147b
-, // c148a
-  // c148b
-13 // c149a
-  // c149b
-:
-    // c150
-Ack // c151a
-  // c151b
-, 159 // c153a
-  // c153b
-: Fill // c155
-, // c156
-} // c157a
-  // c157b
-, u32 venue @calculatedFrom( ""CRC32"" ) // c163a
-  // c163b
-, // c164
-} // c165a
-  // c165b
+Body // c147
+{
+    // c148
+152 : Quote , // c152a
+  // c152b
+173 // c153
+: // c154a
+  // c154b
+Cancel
+    // c155
+, // c156a
+  // c156b
+4 : // c158a
+  // c158b
+Leg // c159a
+  // c159b
+, } // c161
+, u16
+    // c163
+Ref // c164
+@calculatedFrom(
+    // c165
+""CRC32""
+    // c166
+) // c167a
+  // c167b
+, // c168a
+  // c168b
+}
+    // c169
 ")).
-Eval vm_compute in ("<<<M383>>>" ++ check (runes_of_ascii "options {
+Eval vm_compute in ("<<<M279>>>" ++ check (runes_of_ascii "  root packet
+    crc {	uint32
+repeatCount //
+@lengthOf( // a // b
+MetaDataX	) `say ""hi""` ,
+    @tag( 65535 ) A {
+    u128 , u8x	{ repeatCount  @lengthOf( As )// c
+,// packet A { u8 x, }
+i32	_x@calculatedFrom(//	t
+""" ++ [128512]%N ++ runes_of_ascii """	), } , } // c
+,
+@lengthOf(As ) @tag(  0 ) @tag(4294967296 ) string metadata ,
+string lengthOf // `tick` ""quote"" 'q'
+@lengthOf(f32a) , @tag( 3 )string packetx,	@lengthOf( Pad) @lengthOf( packetx ) BodyLength @calculatedFrom( ""a	b"" )
+, repeat u8x
+{ zchar[ 3 ]
+    tag `doc` , match As as leftPad
+    { [
+    10 ,
+3 , 7 ,
+""abc"" , 42 // @lengthOf(
+]
+:
+A
+, } , match Header as falsey { 42
+// `tick` ""quote"" 'q'
+// trailing space 
+:
+    msg_type
+    , 00
+: A
+1 :
+charz ,""// no comment"" : int // @lengthOf(
+,	0123456789 :chars , 4294967296
+: x } ,
+}
+    /// triple
+    , @tag(
+10 ) @tag(//x
+007 )
+@calculatedFrom( ""`tick`""
+    )i8i8 @lengthOf(
+    //
+    charz ),
+    char[ 7] Header
+, } packet
+lengthOf // @lengthOf(
+{match metadata
+    // " ++ [128512]%N ++ runes_of_ascii " emoji
+    as asx{ 7 // packet A { u8 x, }
+: //
+float  ,
+    // " ++ [128512]%N ++ runes_of_ascii " emoji
+    """ ++ [233]%N ++ runes_of_ascii "t" ++ [233]%N ++ runes_of_ascii """:
+stringy
+, """ ++ [28040; 24687]%N ++ runes_of_ascii """ :
+BodyLength , 7 : leftPad , } , @lengthOf(MetaDataX
+)repeat zchar[ 7 ]float , @tag( 0
+    )matchKey @calculatedFrom(""packet""
+    ) // packet A { u8 x, }
+, }packet Pad{ options1 @lengthOf(rootA ),} root // c
+packet BodyLength{
+string uint8x
+//
+// " ++ [27880; 37322]%N ++ runes_of_ascii "
+@lengthOf( Z9_) , } // c")).
+Eval vm_compute in ("<<<M384>>>" ++ check (runes_of_ascii "options {
 	StringPrefixLenType = u16;
 	ArrayPrefixLenType = u16;
 }
 
 packet SampleBinary {
-    uint16 MsgType `" ++ [28040; 24687; 31867; 22411]%N ++ runes_of_ascii "`,
-    u16 BodyLenght @lengthOf(Body) `" ++ [28040; 24687; 20307; 38271; 24230]%N ++ runes_of_ascii "`,
-    match MsgType as Body {
-        1 : Logon,
-        2 : Logout,
-        3 : Heartbeat,
-        4 : RiskControlRequest,
-        5 : RiskControlResponse,
-    },
-        @calculatedFrom(""CRC32"")
-    u32 Ckecksum `" ++ [26657; 39564; 21644]%N ++ runes_of_ascii "`,
+	uint16 MsgType `" ++ [28040; 24687; 31867; 22411]%N ++ runes_of_ascii "`,
+	u16 BodyLenght @lengthOf(Body) `" ++ [28040; 24687; 20307; 38271; 24230]%N ++ runes_of_ascii "`,
+	match MsgType as Body {
+		1 : Logon,
+		2 : Logout,
+		3 : Heartbeat,
+		4 : RiskControlRequest,
+		5 : RiskControlResponse,
+	},
+		@calculatedFrom(""CRC32"")
+	u32 Ckecksum `" ++ [26657; 39564; 21644]%N ++ runes_of_ascii "`,
 }
 
 packet Logon {
-     @leftPad('0')
-    char[10] UserName `" ++ [29992; 25143; 21517]%N ++ runes_of_ascii "`,
-    string Password `" ++ [23494; 30721]%N ++ runes_of_ascii "`,
-    uint64 ClientId `" ++ [23458; 25143; 31471]%N ++ runes_of_ascii "ID`,
-    u16 HeartbeatInterval `" ++ [24515; 36339; 38388; 38548]%N ++ runes_of_ascii "`,
+	 @leftPad('0')
+	char[10] UserName `" ++ [29992; 25143; 21517]%N ++ runes_of_ascii "`,
+	string Password `" ++ [23494; 30721]%N ++ runes_of_ascii "`,
+	uint64 ClientId `" ++ [23458; 25143; 31471]%N ++ runes_of_ascii "ID`,
+	u16 HeartbeatInterval `" ++ [24515; 36339; 38388; 38548]%N ++ runes_of_ascii "`,
 }
 
 packet Logout {
-      @rightPad('0')
-    char[10] UserName `" ++ [29992; 25143; 21517]%N ++ runes_of_ascii "`,
-    uint64 ClientId `" ++ [23458; 25143; 31471]%N ++ runes_of_ascii "ID`,
+	  @rightPad('0')
+	char[10] UserName `" ++ [29992; 25143; 21517]%N ++ runes_of_ascii "`,
+	uint64 ClientId `" ++ [23458; 25143; 31471]%N ++ runes_of_ascii "ID`,
 }
 
 packet Heartbeat {
 }
 
 packet RiskControlRequest {
-    string UniqueOrderId `" ++ [21807; 19968; 35746; 21333; 21495]%N ++ runes_of_ascii "`,
-    char[16] ClOrdID `" ++ [23458; 25143; 35746; 21333; 21495]%N ++ runes_of_ascii "`,
-    char[3] MarketID `" ++ [24066; 22330]%N ++ runes_of_ascii "id`,
-    char[12] SecurityID `" ++ [35777; 21048; 20195; 30721]%N ++ runes_of_ascii "`,
-    char Side `" ++ [20080; 21334; 26041; 21521]%N ++ runes_of_ascii "`,
-    char OrderType `" ++ [35746; 21333; 31867; 22411]%N ++ runes_of_ascii "`,
-    u64 Price `" ++ [20215; 26684]%N ++ runes_of_ascii "`,
-    u32 Qty `" ++ [25968; 37327]%N ++ runes_of_ascii "`,
-    repeat string ExtraInfo `" ++ [38468; 21152; 20449; 24687]%N ++ runes_of_ascii "`,
-    repeat SubOrder {
-    		char[16] ClOrdID `" ++ [23376; 35746; 21333; 21495]%N ++ runes_of_ascii "`,
-    		u64 Price `" ++ [23376; 35746; 21333; 20215; 26684]%N ++ runes_of_ascii "`,
-    		u32 Qty `" ++ [23376; 35746; 21333; 25968; 37327]%N ++ runes_of_ascii "`,
-    	},
+	string UniqueOrderId `" ++ [21807; 19968; 35746; 21333; 21495]%N ++ runes_of_ascii "`,
+	char[16] ClOrdID `" ++ [23458; 25143; 35746; 21333; 21495]%N ++ runes_of_ascii "`,
+	char[3] MarketID `" ++ [24066; 22330]%N ++ runes_of_ascii "id`,
+	char[12] SecurityID `" ++ [35777; 21048; 20195; 30721]%N ++ runes_of_ascii "`,
+	char Side `" ++ [20080; 21334; 26041; 21521]%N ++ runes_of_ascii "`,
+	char OrderType `" ++ [35746; 21333; 31867; 22411]%N ++ runes_of_ascii "`,
+	u64 Price `" ++ [20215; 26684]%N ++ runes_of_ascii "`,
+	u32 Qty `" ++ [25968; 37327]%N ++ runes_of_ascii "`,
+	repeat string ExtraInfo `" ++ [38468; 21152; 20449; 24687]%N ++ runes_of_ascii "`,
+	repeat SubOrder {
+			char[16] ClOrdID `" ++ [23376; 35746; 21333; 21495]%N ++ runes_of_ascii "`,
+			u64 Price `" ++ [23376; 35746; 21333; 20215; 26684]%N ++ runes_of_ascii "`,
+			u32 Qty `" ++ [23376; 35746; 21333; 25968; 37327]%N ++ runes_of_ascii "`,
+		},
 }
 
 packet RiskControlResponse {
-    string UniqueOrderId `" ++ [21807; 19968; 35746; 21333; 21495]%N ++ runes_of_ascii "`,
-    i32 Status `" ++ [29366; 24577]%N ++ runes_of_ascii "`,
-    string Msg `" ++ [32467; 26524; 20449; 24687]%N ++ runes_of_ascii "`,
-    repeat Detail,
+	string UniqueOrderId `" ++ [21807; 19968; 35746; 21333; 21495]%N ++ runes_of_ascii "`,
+	i32 Status `" ++ [29366; 24577]%N ++ runes_of_ascii "`,
+	string Msg `" ++ [32467; 26524; 20449; 24687]%N ++ runes_of_ascii "`,
+	repeat Detail,
 }
 
 packet Detail {
-    string RuleName `" ++ [35268; 21017; 21517; 31216]%N ++ runes_of_ascii "`,
-    u16 Code `" ++ [21407; 22240; 20195; 30721]%N ++ runes_of_ascii "`,
+	string RuleName `" ++ [35268; 21017; 21517; 31216]%N ++ runes_of_ascii "`,
+	u16 Code `" ++ [21407; 22240; 20195; 30721]%N ++ runes_of_ascii "`,
 }")).
-Eval vm_compute in ("<<<M1624>>>" ++ check (runes_of_ascii "packet  falsey
-
-{
-
-    i64_ ,charz{	match
-
-Packet	as
-Pad
-
-{
-""\n"" : 
-Packet  ,
-    ""// no comment""// " ++ [128512]%N ++ runes_of_ascii " emoji
-
-: f32a// `tick` ""quote"" 'q'
-
-  ,
-	[  
-      /// triple
-    3
-    ,
-4294967296, 
-10,	//
-  7	,
-    10 ]
-    :
-
-u ,  // trailing space 
-    ""`tick`""
-    :	u8x
-,  [
-	7,
-
-""it's""
-
-    ]:
-Packet,
-
-0
-
-    : len 
-
-    //
-
-, } ,}, 	 /// triple
-  @lengthOf(
-
-    f32a  )  char[
-    3
-
-]options1 @lengthOf(	Pad )
-, 
-zchar[	0123456789 
-] 	 // trailing space 
-T  ``,
-    } packet	Pad
-    {
-
-    // c
-    	o	roots `{ , }`	// " ++ [128512]%N ++ runes_of_ascii " emoji
-	  , }
-
-packet
-
-    f32a {
-
-    _x//
-
-@calculatedFrom(
-	""x y"" 
-) //x
-	,
-@tag(  65535 
-) 	 //	t
-	char pack@lengthOf(
-    zchar
-	)
-	,	repeat	//
-    int64 falsey 
-,
-
-repeat  len
-{	match
-A as rootA	{
-	[42
-	,""\n""  ]: Z9_ ,
-
-},repeat i16
-	A  ,
+Eval vm_compute in ("<<<M1333>>>" ++ check (runes_of_ascii "// top
+options // c0
+{ LittleEndian
+    // c2
+= // c3a
+  // c3b
+false // c4
+; // c5a
+  // c5b
+StringPrefixLenType // c6
+= // c7a
+  // c7b
+u8 ; ArrayPrefixLenType =
+    // c11
+u64 // c12
+;
+    // c13
+FixedStringPadFromLeft
+    // c14
+= false ; // c17a
+  // c17b
+FixedStringPadChar = // c19a
+  // c19b
+' ' ;
+    // c21
+} // c22
+packet Reject // c24a
+  // c24b
+{ repeat // c26
+char[ // c27a
+  // c27b
+4 // c28
+]
+    // c29
+seqNo , // c31
+string // c32a
+  // c32b
+Px // c33a
+  // c33b
+, // c34
+} root
+    // c36
+packet // c37
+Trade
+    // c38
+{ // c39a
+  // c39b
+@rightPad // c40
+(
+    // c41
+'0' ) // c43a
+  // c43b
+char[ // c44
+2 // c45
+] msgKind , // c48
 repeat
-zchar[ 65535 ] tag `
-`  , f64
-
-float
-
-@lengthOf(
-f32a )``
-
-    , 
-    // `tick` ""quote"" 'q'
-	  // packet A { u8 x, }
-  },x 
-u8x	,
-
-    @tag(  42
-) repeat
-
-    As
-	Packet
-
+    // c49
+f64 // c50a
+  // c50b
+price
+    // c51
+, // c52
+InAcct79 // c53
+{
+    // c54
+repeat
+    // c55
+Reject , // c57a
+  // c57b
+zchar[ // c58
+7 // c59a
+  // c59b
+] // c60a
+  // c60b
+OrderId // c61
 ,
-	@lengthOf(
-    Pad )repeat  f64
-    rootA , 	 // @lengthOf(
-	}")).
-Eval vm_compute in ("<<<M17>>>" ++ check (runes_of_ascii "
-MetaData
-    x{ len
-    crc , float
-    // " ++ [128512]%N ++ runes_of_ascii " emoji
-    asx, i32 uint8x`line1
-line2` ,u16
-tag
-// `tick` ""quote"" 'q'
-//x
-`it's` , As string_
-    ,
-}
-packet metadata {@lengthOf(zchar )// c
-i64_ @calculatedFrom(
-""\" ++ [233]%N ++ runes_of_ascii """	) , //x
-@leftPad
-    ( '\x00' ) zchar[ 10
-] zchar
-    ,
-    lengthOf //x
-string_ ,int @lengthOf( pack
-    ),
-    zchar[ 00 ]
-    Foo , @lengthOf( packetx )
-    @leftPad (
-'\x00'// " ++ [27880; 37322]%N ++ runes_of_ascii "
-) @calculatedFrom(
-    // @lengthOf(
-    ""x y"" )uint16
-len@calculatedFrom( """" )
-`two words` , int8
-    metadata @lengthOf( Foo )`two words`	, // @lengthOf(
-}options
-{ }
-packet
-pack{
-// `tick` ""quote"" 'q'
-//
-f64
-    o , T BodyLength  ,
-    repeat
-    uint8 chars  `" ++ [233]%N ++ runes_of_ascii "`
-    ,repeat
-    // c
-    Logon
-u
-    // " ++ [128512]%N ++ runes_of_ascii " emoji
-    ,@tag(
-    0123456789 )
-char[] repeatCount @lengthOf(// " ++ [27880; 37322]%N ++ runes_of_ascii "
-_x )
-    // c
-    `
-` ,//
-@tag(
-// packet A { u8 x, }
-/// triple
-7 )  repeatCount @calculatedFrom(""packet"" ) `{ , }` , }")).
-Eval vm_compute in ("<<<M1359>>>" ++ check (runes_of_ascii "options {
+    // c62
+} // c63a
+  // c63b
+, Reject , } // c67a
+  // c67b
+")).
+Eval vm_compute in ("<<<M1656>>>" ++ check (runes_of_ascii "packet u128 {
+    @rightPad(' ')
+    i64_ {
+        Logon,
+        char[4294967296] MetaDataX @calculatedFrom(""" ++ [28040; 24687]%N ++ runes_of_ascii """),
+    },
+    rootA {
+        zchar[1] rootA,
+        asx {
+            rootA @calculatedFrom(""abc""),
+            repeat uint16 x_y_z,
+            // packet A { u8 x, }
+            zchar[42] stringy,
+            body,
+        },
+    },
+    @leftPad('\x00')
+    char[3] Z9_ @lengthOf(roots) `" ++ [233]%N ++ runes_of_ascii "`,
+    @lengthOf(charz)
+    @leftPad('0')
+    @calculatedFrom(""a\""b"")
+    zchar[7] a1 @calculatedFrom(""\" ++ [233]%N ++ runes_of_ascii """) `// not a comment`,
+    @lengthOf(lengthOf)
+    repeat i16 chars,
+    int {
+        //	t
+        zchar[1] calculatedFrom `line1
+                line2`,
+        Packet `" ++ [28040; 24687; 31867; 22411]%N ++ runes_of_ascii "`,
+    },// " ++ [128512]%N ++ runes_of_ascii " emoji
+    @rightPad('\x00')
+    zchar[255] repeatCount @calculatedFrom(""\" ++ [233]%N ++ runes_of_ascii """),
+    repeat char[] Pad `a\`,
+    @lengthOf(pack)
+    i8 int,
+}")).
+Eval vm_compute in ("<<<M1353>>>" ++ check (runes_of_ascii "options {
+    StringPrefixLenType = u16;
+    ArrayPrefixLenType = u32;
     FixedStringPadFromLeft = true;
     FixedStringPadChar = '0';
 }
-packet Leg {
-    repeat InSym93 {
-        zchar[3] Acct,
-        string Side2,
-        i32 Flags,
-        f32 Note,
-        i32 msgKind,
-    },
-    f64 Note,
-    uint16 Px,
+packet Cancel {
 }
-packet Quote {
-    zchar[2] OrderId,
-}
-packet Ack {
-    repeat string lastPx,
-    zchar[4] price,
-    uint32 OrderId,
-    Quote,
-    int8 Acct,
-}
-packet Fill {
-    repeat Leg,
-    @rightPad('0') char[11] Note,
-    f64 Px,
-    @rightPad('\x00') char[5] Flags,
-    zchar[9] x,
-    string msgKind,
-}
-root packet Order {
-    Leg,
-    repeat Ack,
-    @rightPad('\x00') char[3] Side2,
-    repeat char[1] seqNo,
-    u16 clOrdID,
-    match clOrdID as Body {
-        198 : Leg,
-        23 : Quote,
-        13 : Ack,
-        159 : Fill,
-    },
-    u32 venue @calculatedFrom(""CRC32""),
-}
-")).
-Eval vm_compute in ("<<<M1117>>>" ++ check (runes_of_ascii "// top
-MetaData
-    // c0
-Packet
-    // c1
-{
-    // c2
-}
-    // c3
-packet
-    // c4
-charz
-    // c5
-{
-    // c6
-Foo
-    // c7
-asx
-    // c8
-`it's`
-    // c9
-,
-    // c10
-@lengthOf(
-    // c11
-T
-    // c12
-)
-    // c13
-@calculatedFrom(
-    // c14
-""""
-    // c15
-)
-    // c16
-@calculatedFrom(
-    // c17
-""x y""
-    // c18
-)
-    // c19
-zchar[
-    // c20
-007
-    // c21
-]
-    // c22
-repeatCount
-    // c23
-@lengthOf(
-    // c24
-int
-    // c25
-)
-    // c26
-`a\`
-    // c27
-,
-    // c28
-i8
-    // c29
-string_
-    // c30
-,
-    // c31
-repeat
-    // c32
-options1
-    // c33
-Pad
-    // c34
-,
-    // c35
-}
-    // c36
-root
-    // c37
-packet
-    // c38
-Packet
-    // c39
-{
-    // c40
-int8
-    // c41
-float
-    // c42
-`doc`
-    // c43
-,
-    // c44
-}
-    // c45
-")).
-Eval vm_compute in ("<<<M1764>>>" ++ check (runes_of_ascii "packet charz {
-    //	t
-    repeat i64_,
-    trueish {
-        repeat _x,
-        repeatCount,
-        repeat u16 matchKey `
-        `,
-        // " ++ [128512]%N ++ runes_of_ascii " emoji
-        // a // b
-        matchKey @calculatedFrom(""a\""b"") `it's`,
-    },
-    @tag(007)
-    @calculatedFrom(""a\\"")
-    @tag(3)
-    f32 f32a @lengthOf(asx) `crlf
-    line`,
-    repeat i8 string_,
-    @lengthOf(Logon)
-    @lengthOf(x_y_z)
-    @lengthOf(zchar)
-    repeat char[65535] Foo `" ++ [233]%N ++ runes_of_ascii "`,
-    @calculatedFrom(""abc"")
-    trueish @lengthOf(A),
-    char[0] float,
-    Packet @calculatedFrom(""a	b""),
-}
-
-MetaData Pad {
-    char[00] leftPad,
-    u8 rootA `
-    `,
-    int32 a1 `say ""hi""`,
-    Z9_ float,
-    i32 Pad,
-}")).
-Eval vm_compute in ("<<<M147>>>" ++ check (runes_of_ascii "root
-    packet falsey{	@tag( 255) len@calculatedFrom( ""`tick`""
-    )//
-,match MetaDataX as
-crc
-{	[7 ] :
-    roots ,} ,	@tag( 10 ) @tag(
-// `tick` ""quote"" 'q'
-// `tick` ""quote"" 'q'
-10//
-) @tag( 255)	repeat /// triple
-uint64 rootA	, tag // a // b
-`" ++ [28040; 24687; 31867; 22411]%N ++ runes_of_ascii "` ,
-float32  i64_ , int64 _x  `doc` , @leftPad( ' '
-    )
-match
-// @lengthOf(
-// @lengthOf(
-i8i8 as pack { // `tick` ""quote"" 'q'
-7 : Logon , ""x y"" : lengthOf , } , // trailing space 
-match x_y_z as u
-{
-// `tick` ""quote"" 'q'
-// " ++ [27880; 37322]%N ++ runes_of_ascii "
-[ 0123456789 ] :	packetx ,007 :x_y_z
-// trailing space 
-//
-, 10 : rootA , 7 : u 0123456789 :falsey
-, }	, // packet A { u8 x, }
-}
-")).
-Eval vm_compute in ("<<<M1489>>>" ++ check (runes_of_ascii "
-
-  root
-    // " ++ [27880; 37322]%N ++ runes_of_ascii "
-  	// @lengthOf(
-
-packet
-
-    Packet
-	{ string o
-	@calculatedFrom( 
-""\" ++ [233]%N ++ runes_of_ascii """
-
-)
-
-    ,
-    @lengthOf(
-
-    Packet 
-        // packet A { u8 x, }
-	) body@calculatedFrom(// @lengthOf(
-	""x y"" )
-
-    `it's` ,
-
-float64 As
-
-@calculatedFrom(""`tick`""
-)  ,
-	char[]	stringy @calculatedFrom(	""" ++ [28040; 24687]%N ++ runes_of_ascii """ )
-	`doc`
-, 
-@calculatedFrom(
-    ""a	b""	)	match
-float 
-as
-
-    o
-
-    {[	""" ++ [128512]%N ++ runes_of_ascii """
-
-    ,
-007 ]
-    :
-metadata ,
-    } 
-,
-    f32a
-	a1`a\` ,
-}
-MetaData 
-repeatCount
-
-{
-packetx
-    i64_
-`" ++ [28040; 24687; 31867; 22411]%N ++ runes_of_ascii "`
-	,  // " ++ [128512]%N ++ runes_of_ascii " emoji
-zchar[
-3	]tag
-
-, i8i8 int
-,
-
-} ")).
-Eval vm_compute in ("<<<M1937>>>" ++ check (runes_of_ascii "
-packet 
-rootA 
-{@tag(
-    0123456789 
-)
-	options1
-
-    {	int32
-
-uint8x
-    `u8 x,`
-    ,
-u8x
-	//x
-// packet A { u8 x, }
-      {  match 
-Header
-
-as
-    metadata
-    { [
-10
-
-] 
-:	pack} ,	}  ,
-    f64	// `tick` ""quote"" 'q'
-	chars
-
-, 
-} ,
-	@lengthOf(
-    body )u64 
-        // @lengthOf(
-    //
-	Z9_  ,} 
-MetaData
-
-    repeatCount
-{
-zchar[10 ]
-
-string_ ,
-	f64
-
-A	,
-u32  BodyLength
-
-    ,zchar[
-
-    00
-    ]
-	uint8x
-,trueish leftPad
-	, char[65535]rootA
-, }  
-      //	t
- 
-")).
-Eval vm_compute in ("<<<M1366>>>" ++ check (runes_of_ascii "options {
-    LittleEndian = true;
-    StringPrefixLenType = u64;
-    ArrayPrefixLenType = u16;
-    FixedStringPadFromLeft = false;
-    FixedStringPadChar = ' ';
+packet Party {
 }
 packet Logon {
-    zchar[5] Side2,
 }
-root packet Logout {
-    repeat i64 Tail,
-    Logon,
-    repeat i16 OrderId,
-    char[] venue,
-    uint64 x,
-    repeat i16 count,
-    u8 Flags,
-    match Flags as Body {
-        25 : Logon,
+packet Ack {
+}
+packet Logout {
+    repeat InSym87 {
+        InClordid94 {
+            string clOrdID,
+        },
+        string Px,
+        i16 Qty,
+        repeat InCount71 {
+            repeat Cancel,
+            uint16 Tail,
+            char[2] x,
+            repeat string Ref,
+        },
+        Cancel,
     },
-    u16 Qty @calculatedFrom(""CR\
-C32""),
+}
+root packet Order {
+    repeat string tag7,
+    @leftPad(' ') char[3] Px,
+    u8 Qty,
+    match Qty as Body {
+        [28, 62] : Logon,
+        148 : Ack,
+        88 : Party,
+        184 : Cancel,
+    },
+    u16 Note @calculatedFrom(""CRC32""),
 }
 ")).
-Eval vm_compute in ("<<<M220>>>" ++ check (runes_of_ascii "root
-    packet string_{
-//	t
-//x
-i16 o /// triple
-,
-    @tag( 4294967296
-)
-repeat char o ,Foo {match MetaDataX // trailing space 
-as leftPad
-    { 0123456789 : calculatedFrom ,
-[ 0 ]
-: u128}
-, repeat
-u
-// `tick` ""quote"" 'q'
-// @lengthOf(
-{
-    zchar[65535]body@lengthOf( float  )
-,o , asx @calculatedFrom( ""{,}"" ) `it's` // `tick` ""quote"" 'q'
-,}// `tick` ""quote"" 'q'
-,
-} ,  }
-")).
-Eval vm_compute in ("<<<M1913>>>" ++ check (runes_of_ascii "MetaData Header {
+Eval vm_compute in ("<<<M1641>>>" ++ check (runes_of_ascii "packet u128 {
+    repeat char[65535] float,
 }
 
-packet crc {
-    match zchar as leftPad {
-        7 : As,
-        0 : Packet,
-        [00] : Pad,
-        //x
-        //x
-        ""// no comment"" : calculatedFrom,
-        3 : string_,
+options {
+    f32a = char[];
+}
+
+packet _x {
+    @rightPad('0')
+    // packet A { u8 x, }
+    @lengthOf(i8i8)
+    @lengthOf(lengthOf)
+    repeat Z9_ `crlf
+    line`,
+    string_ {
+        // `tick` ""quote"" 'q'
+        // c
+        zchar[7] x_y_z,
+        Header x `line1
+        line2`,
+    },//	t
+    @leftPad()
+    match float as x_y_z {
+        """ ++ [28040; 24687]%N ++ runes_of_ascii """ : metadata,
+        007 : A,
+        00 : falsey,
+        0123456789 : Foo,
+        0123456789 : zchar,
     },
-    falsey packetx `crlf
-    line`,// " ++ [27880; 37322]%N ++ runes_of_ascii "
-    @tag(42)
-    repeat u64 packetx,
     @calculatedFrom(""1"")
-    repeat u16 calculatedFrom,
+    @tag(0)
+    char[00] options1,
+}
+
+packet Pad {
+    u16 body @lengthOf(stringy),
+}
+
+options {
+    BodyLength = '0'
+    msg_type = ""a\""b"";
 }")).
+Eval vm_compute in ("<<<M1735>>>" ++ check (runes_of_ascii "  packet float  
+      // c1
+
+	{	// c2
+@rightPad 	 // c3a
+	// c3b
+      ( 	 // c4a
+// c4b
+    )// c5a
+  	// c5b
+rootA  // c6
+
+@lengthOf(  // c7a
+// c7b
+	trueish  // c8
+) 
+  // c9
+  , 
+        // c10
+stringy  // c11a
+    // c11b
+  @lengthOf( 	 // c12a
+
+  // c12b
+      matchKey ) 
+	    // c14
+    	,// c15a
+  // c15b
+	char[ 4294967296 ] 
+	    // c18
+pack@lengthOf(
+        // c20
+    uint8x
+	// c21
+
+  ) 	 // c22a
+  // c22b
+  ,
+// c23
+    } // c24
+  root// c25
+  	packet
+	trueish
+{ 
+	    // c28
+    	repeat
+    uint64
+
+// c30
+	u128 
+// c31
+`line1
+line2`// c32
+
+, 
+
+// c33
+  } 
+
+// c34
+")).
+Eval vm_compute in ("<<<M1727>>>" ++ check (runes_of_ascii "
+options	{
+
+rootA
+
+=
+4294967296;
+falsey =""a\""b""; As = 
+
+    // @lengthOf(
+  /// triple
+	"""" ;
+packetx  =
+""packet""
+
+    i8i8= true
+;
+
+    } 	 // `tick` ""quote"" 'q'
+  packet
+x {
+    repeat zchar 
+rootA	,
+	char[]	pack
+	`// not a comment`
+, 
+@tag(  00
+)	@tag(
+0123456789
+)
+u
+
+@calculatedFrom( ""packet""	) 
+`u8 x,` ,
+
+    Header { 
+zchar[ 00  ]
+body ,
+    a1
+@calculatedFrom( 	 // " ++ [128512]%N ++ runes_of_ascii " emoji
+	""it's"" ) `" ++ [233]%N ++ runes_of_ascii "`  ,
+
+    }
+
+    , }// " ++ [27880; 37322]%N ++ runes_of_ascii "
+	MetaData
+A// a // b
+      {
+zchar/// triple
+    matchKey
+
+    ``,
+int64	metadata,
+	char[] _x 	 //	t
+    ,
+    }")).
+Eval vm_compute in ("<<<M1765>>>" ++ check (runes_of_ascii "packet leftPad {
+    match A as x {
+        ""`tick`"" : MetaDataX,
+        [""it's"", ""\n"", """ ++ [28040; 24687]%N ++ runes_of_ascii """] : string_,
+        0123456789 : o,
+        [""{,}"", ""x y""] : uint8x,
+    },
+    char[3] msg_type @lengthOf(u) `two words`,
+    // c
+    repeat int Foo,
+    @rightPad()
+    @rightPad(' ')
+    Foo charz `{ , }`,
+}
+
+MetaData A {
+    zchar[0] A `{ , }`,
+    float32 a1,
+    char[] pack,/// triple
+    string body `" ++ [233]%N ++ runes_of_ascii "`,
+    string chars `doc`,
+    int _x `two words`,
+}
+
+options {
+    Z9_ = uint16;
+}")).
+Eval vm_compute in ("<<<M180>>>" ++ check (runes_of_ascii "options
+    // @lengthOf(
+    {}
+packet charz { @rightPad (  ' ') @calculatedFrom(
+    ""a\\"" ) repeat int	crc `two words` , string stringy
+    @calculatedFrom( ""a	b""
+    // " ++ [128512]%N ++ runes_of_ascii " emoji
+    )`// not a comment`	,//
+char i8i8,
+}  MetaData	crc {// `tick` ""quote"" 'q'
+crc i64_`{ , }`
+,
+    // `tick` ""quote"" 'q'
+    i32// c
+u128 ,// packet A { u8 x, }
+BodyLength Header
+    ,char[ 0123456789]
+/// triple
+//
+Packet `u8 x,`
+, uint8 repeatCount , //	t
+}")).
+Eval vm_compute in ("<<<M1642>>>" ++ check (runes_of_ascii "
+
+  packet
+
+    BodyLength {repeatCount// packet A { u8 x, }
+`// not a comment` ,
+	@lengthOf(	lengthOf )	@tag(65535 
+) 
+@rightPad 
+( 
+// @lengthOf(
+	  //	t
+'0'
+
+)	/// triple
+	  u8
+	Logon
+,
+} packet  chars
+	{ 
+o msg_type	, @tag(
+	10
+
+    )
+zchar[	65535]
+f32a
+
+    ,repeat char[]  i64_
+	`
+`
+
+    ,	} root  packet
+	f32a{
+    @tag(
+
+    255
+
+    ) 
+repeat u8
+
+    stringy 
+, 
+}
+
+")).
+Eval vm_compute in ("<<<M15>>>" ++ check (runes_of_ascii "MetaData // c
+u128{
+    }MetaData
+    a1 {
+}
+    root packet	o {	char[
+10 ]  stringy @lengthOf( Z9_) ,
+match
+x_y_z as stringy
+{	3
+: float ,
+    } , @leftPad //	t
+( ' '
+    ) u128 {	repeat i32 msg_type `crlf
+line` , x	, repeat char[	65535
+] T, match
+    A as
+i8i8 { """ ++ [128512]%N ++ runes_of_ascii """ : Logon
+, } //
+, } ,
+@rightPad (  '\x00') repeat x_y_z options1 `two words` , }
+")).
 Eval vm_compute in ("<<<M368>>>" ++ check (runes_of_ascii "MetaData T
     {
 uint8
@@ -855,84 +815,125 @@ line`,  zchar[ 42 ]	_x
     255 ; u // " ++ [27880; 37322]%N ++ runes_of_ascii "
 = '0'	}
 ")).
-Eval vm_compute in ("<<<M1435>>>" ++ check (runes_of_ascii "packet float {
-    @rightPad()
-    // c5a
-    // c5b
-    rootA @lengthOf(trueish),
-    // c10
-    stringy @lengthOf(matchKey),// c15a
-    // c15b
-    char[4294967296] pack @lengthOf(uint8x),
-}// c24
+Eval vm_compute in ("<<<M1633>>>" ++ check (runes_of_ascii "
+options{	LittleEndian=
+true
 
-root packet trueish {
-    // c28
-    repeat uint64 u128 `line1
-        line2`,
-}")).
-Eval vm_compute in ("<<<M361>>>" ++ check (runes_of_ascii "MetaData BodyLength { uint16 leftPad `" ++ [233]%N ++ runes_of_ascii "` // a // b
-, uint8x asx,
-    len lengthOf `// not a comment` ,
-string uint8x `doc`
-, }options {i8i8 = 0
-lengthOf =
-    0123456789 ; } packet uint8x { @lengthOf(
-pack ) float64
-u8x@lengthOf(asx //x
-)
-, }
-")).
-Eval vm_compute in ("<<<M1616>>>" ++ check (runes_of_ascii "
+; 
+}  packet Logon	{u8  x
+    ,
+    string
+user
+,  }	packet
+Logout
 
-  MetaData 
-zchar 
-{
+    {
 
-uint8
-	_x 
-    // `tick` ""quote"" 'q'
-		//
-`doc` , float64 
-metadata `doc` // " ++ [128512]%N ++ runes_of_ascii " emoji
-		,	zchar[ 
-42
-]
-// packet A { u8 x, }
-	// c
-	x_y_z
+    u16
+reason ,
+	}packet
+	Empty { }
 
-, zchar[
-    3] Logon
+root
+packet
 
-    `{ , }`
+Frame 
+{ u16
 
+    MsgType , u8
+	BodyLen  @lengthOf(
+Body
+    ) ,	u8	flags
+
+,  Logon
+
+Body 
 ,
+u32 trailer ,  }")).
+Eval vm_compute in ("<<<M1919>>>" ++ check (runes_of_ascii "
+root packet string_ 
+{@leftPad
+	( ' '  ) chars {
+repeat zchar[
+
+    0	]
+
+    tag ,
+
+    string	falsey ,// " ++ [128512]%N ++ runes_of_ascii " emoji
+	  repeat
+    char[
+	007  ]
+    body	`two words`
+	,
+
+}
+,
+@calculatedFrom(
+""// no comment"" ) Foo
+	T
+    ,// " ++ [128512]%N ++ runes_of_ascii " emoji
+}
+")).
+Eval vm_compute in ("<<<M1427>>>" ++ check (runes_of_ascii "// top
+MetaData leftPad {
+    // c2
+    chars MetaDataX,
+    // c5
 }
 
+// c6
+packet repeatCount {
+    // c9
+    char[255] uint8x `" ++ [233]%N ++ runes_of_ascii "`,
+    // c15
+}
+
+// c16
+MetaData pack {
+    // c19
+    As Foo,
+    // c22
+}
+// c23")).
+Eval vm_compute in ("<<<M1323>>>" ++ check (runes_of_ascii "root packet Frame {
+    u8 K,
+    Logon first,
+    match K as Body {
+        1 : Logon,
+        2 : Logout,
+    },
+}
+packet Logon {
+    string user,
+}
+packet Logout {
+    u16 reason,
+}
 ")).
-Eval vm_compute in ("<<<M1931>>>" ++ check (runes_of_ascii "packet A {
-    Inner {
-        u8 x `a
-                
-                b`,
-        Deep {
-            u8 y `a
-                        
-                        b`,
-        },
-    },
-}")).
-Eval vm_compute in ("<<<M1565>>>" ++ check (runes_of_ascii "packet A {
-    match k as n {
-        [
-            22, 4, 66, 8, 10,
-            ""a"", ""c c"", ""e"", ""g"", ""i"",
-            ""k""
-        ] : B,
-        2 : C,
-    },
-}")).
+Eval vm_compute in ("<<<M1777>>>" ++ check (runes_of_ascii "MetaData falsey  {
+o
+i8i8
+,
+
+char[]
+
+    pack
+    ,float32
+
+    lengthOf
+
+    ,	len //x
+    	BodyLength
+
+, 
+BodyLength 
+o
+
+, stringy	u128`crlf
+line`
+	,}
+")).
 Eval vm_compute in ("<<<M406>>>" ++ check (runes_of_ascii "packet uint8x
 { match match pack
     as msg_type	{
@@ -966,7 +967,7 @@ a1
     { } options {packetx
     = '\x00'	; u128= ""a	b""  ; }
 ")).
-Eval vm_compute in ("<<<M502>>>" ++ check (runes_of_ascii "packet uint8x
+Eval vm_compute in ("<<<M507>>>" ++ check (runes_of_ascii "packet uint8x
 { match pack
     as msg_type	{
     0123456789 :	float
@@ -975,236 +976,266 @@ Eval vm_compute in ("<<<M502>>>" ++ check (runes_of_ascii "packet uint8x
 } packet //	t
 a1
     { } options {packetx
-    = ;	'\x00' u128= ""a	b""  ; }
+    = '\x00'	u128 ;= ""a	b""  ; }
 ")).
-Eval vm_compute in ("<<<M415>>>" ++ check (runes_of_ascii "packet uint8x
+Eval vm_compute in ("<<<M465>>>" ++ check (runes_of_ascii "packet uint8x
 { match pack
-     msg_type	{
+    as msg_type	{
     0123456789 :	float
 }
 ,
 } packet //	t
-a1
+
     { } options {packetx
     = '\x00'	; u128= ""a	b""  ; }
 ")).
-Eval vm_compute in ("<<<M678>>>" ++ check (runes_of_ascii "// @lengthOf(
+Eval vm_compute in ("<<<M684>>>" ++ check (runes_of_ascii "// @lengthOf(
 packet i8i8 { u128 o , }
 options { MetaDataX = true;
     BodyLength =""packet"" x_y_z= 007
 crc //x
 = ""abc"" ;
-    < msg_type =
-i16 }")).
-Eval vm_compute in ("<<<M679>>>" ++ check (runes_of_ascii "// @lengthOf(
-packet { i8i8 u128 o , }
+    msg_type =
+i16 } }")).
+Eval vm_compute in ("<<<M685>>>" ++ check (runes_of_ascii "// @lengthOf(
+packet i8i8 { u128 o , }
 options { MetaDataX = true;
     BodyLength =""packet"" x_y_z= 007
 crc //x
 = ""abc"" ;
+    = msg_type
+i16 }")).
+Eval vm_compute in ("<<<M1452>>>" ++ check (runes_of_ascii "packet A {
+    Inner {
+        u8 x `
+                x`,
+        Deep {
+            u8 y `
+                        x`,
+        },
+    },
+}")).
+Eval vm_compute in ("<<<M719>>>" ++ check (runes_of_ascii "// @lengthOf(
+packet i8i8 { u128 o , }
+options { MetaDataX = true;
+     =""packet"" x_y_z= 007
+crc //x
+= ""abc"" ;
     msg_type =
 i16 }")).
-Eval vm_compute in ("<<<M1502>>>" ++ check (runes_of_ascii "packet A {
-    match k as n {
-        [
-            1, 007, 5, 7, 9,
-            ""bb"", ""d"", ""f"", ""h""
-        ] : B,
-        2 : C,
+Eval vm_compute in ("<<<M1875>>>" ++ check (runes_of_ascii "root packet lengthOf {
+    @leftPad(' ')
+    repeat char MetaDataX,
+}
+
+MetaData Pad {
+    msg_type rootA `// not a comment`,
+}")).
+Eval vm_compute in ("<<<M1842>>>" ++ check (runes_of_ascii "packet A {
+    Inner {
+        u8 x `x
+        `,
+        Deep {
+            u8 y `x
+            `,
+        },
     },
 }")).
-Eval vm_compute in ("<<<M16>>>" ++ check (runes_of_ascii "options { }MetaData u8x { uint8x	body`crlf
-line`
-    //	t
-    , calculatedFrom body ,
-}
-    options  {
-} root packet options1
-{  }")).
-Eval vm_compute in ("<<<M1859>>>" ++ check (runes_of_ascii "packet A {
-    u16 len @lengthOf(body) `a
-        b`,
-    u32 crc @calculatedFrom(""CRC32"") `a
-        b`,
-    string body,
-}")).
-Eval vm_compute in ("<<<M1151>>>" ++ check (runes_of_ascii "MetaData leftPad { chars MetaDataX // c
-, } packet repeatCount { char[ 255 ] uint8x `" ++ [233]%N ++ runes_of_ascii "` , } MetaData pack { As Foo , }")).
-Eval vm_compute in ("<<<M1183>>>" ++ check (runes_of_ascii "MetaData leftPad { chars MetaDataX , } packet repeatCount { char[ 255 ] uint8x `" ++ [233]%N ++ runes_of_ascii "` , } MetaData pack { As // c
-Foo , }")).
-Eval vm_compute in ("<<<M1514>>>" ++ check (runes_of_ascii "packet
-A{
-    match k 
-as n 
-{
+Eval vm_compute in ("<<<M1171>>>" ++ check (runes_of_ascii "MetaData leftPad { chars MetaDataX , } packet repeatCount { char[ 255 ] uint8x `" ++ [233]%N ++ runes_of_ascii "` // c
+, } MetaData pack { As Foo , }")).
+Eval vm_compute in ("<<<M302>>>" ++ check (runes_of_ascii "packet string_{@lengthOf(	float ) // @lengthOf(
+BodyLength { match uint8x as i64_ { 0123456789
+: As
+    , } , } , }")).
+Eval vm_compute in ("<<<M1478>>>" ++ check (runes_of_ascii "
+packet
+    A {
+match k as
+
+    n { 
 [
-    ""a"",  ""bb""
-    , 007  ,""d"" , 
-""e"" ,
-	66 , ""g""
 
-, 
-""h"" ]
-    :B 2	:
-C
-}, } ")).
-Eval vm_compute in ("<<<M1269>>>" ++ check (runes_of_ascii "  packet	B
-{
-u8 a , 
-string	s
-	,
+1 ,
+22 ,007 
+,
+	4
+	, 
+5
+
+, 66 ]  :  B ,
+
+    2
+	:  C}
+    , }
+
+")).
+Eval vm_compute in ("<<<M158>>>" ++ check (runes_of_ascii "
+MetaData charz { As u128 , Logon options1 `say ""hi""` ,
+    zchar[ 0
+// @lengthOf(
+//
+]Logon ,
     }
-    root
-	packet P
-
-{ u16
-
-L @lengthOf( B ), B
-    , 
-u8  t ,
-}
 ")).
-Eval vm_compute in ("<<<M868>>>" ++ check (runes_of_ascii "packet A {
-  match k as n {
-    [""a"", ""bb"", ""c c"", ""d"", ""e"", ""f"", ""g"", ""h"", ""i""] : B
-    2 : C
-  },
-}")).
-Eval vm_compute in ("<<<M875>>>" ++ check (runes_of_ascii "packet A {
-  match k as n {
-    [""a"", ""bb"", 007, ""d"", ""e"", 66, ""g"", ""h"", 9] : B,
-    2 : C
-  },
-}")).
-Eval vm_compute in ("<<<M615>>>" ++ check (runes_of_ascii "
+Eval vm_compute in ("<<<M1558>>>" ++ check (runes_of_ascii "root packet
+SimpleMessage
+
+{uint16 
+MsgType
+
+`" ++ [28040; 24687; 31867; 22411]%N ++ runes_of_ascii "`,  string
+
+JsonBody
+`Json" ++ [23383; 31526; 20018; 28040; 24687; 20307]%N ++ runes_of_ascii "` ,
+
+    }
+")).
+Eval vm_compute in ("<<<M624>>>" ++ check (runes_of_ascii "
 packet
     asx {match u128 as lengthOf
 {
 //	t
 // `tick` ""quote"" 'q'
 255 : x ,
-    match ,	}")).
-Eval vm_compute in ("<<<M645>>>" ++ check (runes_of_ascii "
+    } ,	repeat")).
+Eval vm_compute in ("<<<M603>>>" ++ check (runes_of_ascii "
 packet
     asx {match u128 as lengthOf
 {
 //	t
 // `tick` ""quote"" 'q'
-255 : a" ++ [769]%N ++ runes_of_ascii "b ,
+255 : x x ,
     } ,	}")).
-Eval vm_compute in ("<<<M619>>>" ++ check (runes_of_ascii "
+Eval vm_compute in ("<<<M574>>>" ++ check (runes_of_ascii "
 packet
-    asx {match u128 as lengthOf
+    asx {match as u128 lengthOf
 {
 //	t
 // `tick` ""quote"" 'q'
 255 : x ,
-    } }	,")).
-Eval vm_compute in ("<<<M1572>>>" ++ check (runes_of_ascii "
-packet  calculatedFrom {  repeat 	 // packet A { u8 x, }
-
-string Foo`{ , }`
-    ,
-}
-")).
-Eval vm_compute in ("<<<M1730>>>" ++ check (runes_of_ascii "packet A {
-    match k as n {
-        [1, 22, 4, ""c c""] : B,
-        2 : C,
-    },
-}")).
-Eval vm_compute in ("<<<M1713>>>" ++ check (runes_of_ascii "
+    } ,	}")).
+Eval vm_compute in ("<<<M643>>>" ++ check (runes_of_ascii "
 packet
-A{  match
-k
-as n
-
-    {
-[  1
-    ,22 
-, 007
-]
-:
-	B  ,
-2:	C  }, }
-
-")).
-Eval vm_compute in ("<<<M1703>>>" ++ check (runes_of_ascii "root packet P {
+    asx {match x" ++ [178]%N ++ runes_of_ascii " as lengthOf
+{
+//	t
+// `tick` ""quote"" 'q'
+255 : x ,
+    } ,	}")).
+Eval vm_compute in ("<<<M866>>>" ++ check (runes_of_ascii "packet A {
+  match k as n {
+    [1, 22, 007, 4, 5, 66, 7, 8, 9] : B
+    2 : C
+  },
+}")).
+Eval vm_compute in ("<<<M823>>>" ++ check (runes_of_ascii "packet A {
+  match k as n {
+    [""a"", ""bb"", 007, ""d"", ""e""] : B,
+    2 : C
+  },
+}")).
+Eval vm_compute in ("<<<M1467>>>" ++ check (runes_of_ascii "root packet P {
     u16 a,
     u32 Sum @calculatedFrom(""CR\
         C32""),
 }")).
-Eval vm_compute in ("<<<M807>>>" ++ check (runes_of_ascii "packet A {
-  match k as n {
-    [""a"", 22, ""c c"", 4] : B
-    2 : C
-  },
-}")).
+Eval vm_compute in ("<<<M1485>>>" ++ check (runes_of_ascii "
+
+  packet	body { i32 
+f32a
+`{ , }`
+	,
+
+    }
+
+options { 	 // c
+
+  }
+")).
 Eval vm_compute in ("<<<M1087>>>" ++ check (runes_of_ascii "packet A { match k as n { [ // a
  1 // b
  , // c
  2 ] // d
  : B }, }")).
-Eval vm_compute in ("<<<M534>>>" ++ check (runes_of_ascii "packet uint8x
-{ match pack
-    as msg_type	{
-    0123456789 :	")).
-Eval vm_compute in ("<<<M1891>>>" ++ check (runes_of_ascii "
-packet 	 // c
-  body
-{
-i32
-f32a
-`{ , }` ,
-} options
-{ } ")).
-Eval vm_compute in ("<<<M786>>>" ++ check (runes_of_ascii "packet A { Inner { match k as n { [1,22] : B, }, }, }")).
-Eval vm_compute in ("<<<M1217>>>" ++ check (runes_of_ascii "packet body { i32 f32a `{ , }` , } options { // c
+Eval vm_compute in ("<<<M1517>>>" ++ check (runes_of_ascii "
+
+  MetaData
+    M{
+
+    u8
+
+    x 
+`
+`  ,T
+    t `
+`
+	,}
+")).
+Eval vm_compute in ("<<<M1685>>>" ++ check (runes_of_ascii "packet body {
+    i32 f32a `{ , }`,
+}
+
+options {
+    // c
 }")).
-Eval vm_compute in ("<<<M921>>>" ++ check (runes_of_ascii "MetaData M {
-    u8 x `a
-b`,
-    T t `a
-b`,
-}")).
-Eval vm_compute in ("<<<M1512>>>" ++ check (runes_of_ascii "
-root
-	packet A
-{
+Eval vm_compute in ("<<<M1851>>>" ++ check (runes_of_ascii "
+packet
+
+A
+    {  u8
+    x , 
+    // c
+
 	u8
-x 
-`x
-`,
-
-    }")).
-Eval vm_compute in ("<<<M200>>>" ++ check (runes_of_ascii "options {
-options1 =
-    ' ' ;
-}
+y
+	,	}
 
 ")).
-Eval vm_compute in ("<<<M738>>>" ++ check (runes_of_ascii "\B1ss""~3@|Nr!9$[0mx>ti>t+Fp_cN&")).
-Eval vm_compute in ("<<<M941>>>" ++ check (runes_of_ascii "packet A {
-    u8 x `a
-
-b`,
-}")).
-Eval vm_compute in ("<<<M1084>>>" ++ check (runes_of_ascii "packet A { // a
- u8 x, }")).
-Eval vm_compute in ("<<<M747>>>" ++ check (runes_of_ascii "true int16 u16 { f32a")).
-Eval vm_compute in ("<<<M1131>>>" ++ check (runes_of_ascii "MetaData
+Eval vm_compute in ("<<<M1216>>>" ++ check (runes_of_ascii "packet body { i32 f32a `{ , }` , } options
 // c
-u { }")).
-Eval vm_compute in ("<<<M1026>>>" ++ check (runes_of_ascii "packet A {
-}
-// c" ++ [8287]%N)).
-Eval vm_compute in ("<<<M1004>>>" ++ check (runes_of_ascii "packet A {
-}// c" ++ [8202]%N)).
-Eval vm_compute in ("<<<M1072>>>" ++ check (runes_of_ascii "
-
-  packet A {}")).
-Eval vm_compute in ("<<<M399>>>" ++ check (runes_of_ascii "packet")).
-Eval vm_compute in ("<<<M733>>>" ++ check (runes_of_ascii "
-
+{ }")).
+Eval vm_compute in ("<<<M1582>>>" ++ check (runes_of_ascii "packet  MetaDataX	{i16 
+u128 
+`" ++ [233]%N ++ runes_of_ascii "`
+, 	 //x
+	}
 
 ")).
+Eval vm_compute in ("<<<M724>>>" ++ check (runes_of_ascii "// @lengthOf(
+packet i8i8 { u128 o , }
+opt")).
+Eval vm_compute in ("<<<M1841>>>" ++ check (runes_of_ascii "
+
+  packet
+
+    int
+{ }  
+  //	t
+ 
+")).
+Eval vm_compute in ("<<<M952>>>" ++ check (runes_of_ascii "root packet A {
+    u8 x `x
+`,
+}")).
+Eval vm_compute in ("<<<M1008>>>" ++ check (runes_of_ascii "packet A {
+ u8 x `d" ++ [8202]%N ++ runes_of_ascii "`, // c" ++ [8202]%N ++ runes_of_ascii "
+}")).
+Eval vm_compute in ("<<<M581>>>" ++ check (runes_of_ascii "
+packet
+    asx {match u128")).
+Eval vm_compute in ("<<<M770>>>" ++ check (runes_of_ascii "EJYa-@ZpfaJe_ojrLyZC9M")).
+Eval vm_compute in ("<<<M211>>>" ++ check (runes_of_ascii "MetaData
+roots {
+}
+
+")).
+Eval vm_compute in ("<<<M982>>>" ++ check (runes_of_ascii "// c" ++ [12288]%N ++ runes_of_ascii "
+packet A {
+}")).
+Eval vm_compute in ("<<<M1083>>>" ++ check (runes_of_ascii "packet A { // a
+ }")).
+Eval vm_compute in ("<<<M1230>>>" ++ check (runes_of_ascii "packet x { // c
+}")).
+Eval vm_compute in ("<<<M740>>>" ++ check (runes_of_ascii ", = , ; int16")).
+Eval vm_compute in ("<<<M1000>>>" ++ check (runes_of_ascii "// c" ++ [8192]%N)).
+Eval vm_compute in ("<<<M731>>>" ++ check (runes_of_ascii "/")).
